@@ -119,9 +119,13 @@ def generate(seed, tier, enlarged=False):
         elif r == 7:
             cases.append({'kind': 'ser', 'v': poison(rng, v)})
         elif r == 8:
-            cases.append({'kind': 'emitter', 'v': ['dict', [[['s', 'x'], v]]]})
+            # (`second`: the row is the second one emitted for its time, merged into the stored row)
+            cases.append({'kind': 'emitter', 'v': ['dict', [[['s', 'x'], v]]], 'second': rng.random() < 0.5})
         else:
             cases.append({'kind': 'idem', 'v': v})
+    # serializers registered in the middle of a session (after values have been deserialized already): what they
+    # serialize must come back through them
+    cases += [{'kind': 'late', 'v': ['int', rng.randint(-50, 50)], 'n': i} for i in range(max(3, n // 300))]
     return cases
 
 
@@ -343,9 +347,57 @@ def canon_table(bodies):
     return tab
 
 
+class LateBase:
+    def __init__(self, n):
+        self.n = n
+
+    def __eq__(self, other):
+        return type(self) is type(other) and self.n == other.n
+
+    def __repr__(self):
+        return '%s(%d)' % (type(self).__name__, self.n)
+
+
+def run_late(c):
+    from vivarium.core.serialize import serialize_value, deserialize_value
+    from vivarium.core.registry import Serializer, serializer_registry
+    import re
+    deserialize_value({'warm': [1, 'up']})          # the session has deserialized something before
+    tag = 'late%dx%d' % (c['n'], len(serializer_registry.list()))
+    cls = type('Late_' + tag, (LateBase,), {})
+    rx = re.compile(r'!%s\[(-?\d+)\]' % tag)
+
+    class LateSerializer(Serializer):
+        python_type = cls
+
+        def serialize(self, data):
+            return '!%s[%d]' % (tag, data.n)
+
+        def can_deserialize(self, data):
+            return isinstance(data, str) and bool(rx.fullmatch(data))
+
+        def deserialize(self, data):
+            return cls(int(rx.fullmatch(data).group(1)))
+    serializer_registry.register(str(cls), LateSerializer())
+    n = c['v'][1]
+    obj = {'a': cls(n), 'b': [cls(n + 1), 2], 'c': {'d': cls(n + 2)}}
+    out = {'obj': None}
+    try:
+        s = serialize_value(obj)
+        out['late_ser_ok'] = s == {'a': '!%s[%d]' % (tag, n), 'b': ['!%s[%d]' % (tag, n + 1), 2], 'c': {'d': '!%s[%d]' % (tag, n + 2)}}
+        back = deserialize_value(s)
+        out['late_back_ok'] = back == obj
+        out['late_back'] = repr(back)[:200]
+    except Exception as e:
+        out['late_err'] = '%s: %s' % (type(e).__name__, str(e)[:150])
+    return out
+
+
 def run_impl(c):
     from vivarium.core.serialize import serialize_value, deserialize_value
     from vivarium.core.emitter import RAMEmitter
+    if c['kind'] == 'late':
+        return run_late(c)
     obj = build(c['v'])
     kind = c['kind']
     out = {'obj': obj}
@@ -373,8 +425,12 @@ def run_impl(c):
                 em = RAMEmitter({})
                 row = dict(obj)
                 row['time'] = 0.0
+                if c.get('second'):
+                    em.emit({'table': 'history', 'data': {'time': 0.0, 'zz_first': 1}})
                 em.emit({'table': 'history', 'data': row})
+                out['stored'] = em.get_data()[0.0]
                 out['deser'] = em.get_data_deserialized()[0.0]
+                out['deser'].pop('zz_first', None)
         except Exception as e:
             out['deser_err'] = type(e).__name__ + ':' + str(e)[:100]
     return out
@@ -382,15 +438,28 @@ def run_impl(c):
 
 def oracle(c, ob, rng):
     msgs = []
+
+    def plain(j):
+        if j is None or isinstance(j, (bool, int, float, str)):
+            return True
+        if isinstance(j, list):
+            return all(plain(x) for x in j)
+        if isinstance(j, dict):
+            return all(isinstance(k, str) and plain(x) for k, x in j.items())
+        return False
+    if c['kind'] == 'late':
+        if 'late_err' in ob:
+            return [('a serializer registered in mid-session: ' + ob['late_err'], 'late-serializer')]
+        if not ob['late_ser_ok']:
+            return [('a serializer registered in mid-session is not used by serialize_value', 'late-serializer')]
+        if not ob['late_back_ok']:
+            return [('values serialized by a serializer registered in mid-session do not come back through its '
+                     'deserializer: got %s' % ob['late_back'], 'late-serializer')]
+        return []
+    if 'stored' in ob and not plain(ob['stored']):
+        msgs.append(('the row stored by the RAM emitter (%s row for its time) is not plain JSON data'
+                     % ('second' if c.get('second') else 'first'), 'not-plain'))
     if 'ser' in ob:
-        def plain(j):
-            if j is None or isinstance(j, (bool, int, float, str)):
-                return True
-            if isinstance(j, list):
-                return all(plain(x) for x in j)
-            if isinstance(j, dict):
-                return all(isinstance(k, str) and plain(x) for k, x in j.items())
-            return False
         if not plain(ob['ser']):
             msgs.append(('serialize_value returned something that is not plain JSON data', 'not-plain'))
     if 'ser2' in ob and ob['ser2'] != ob['ser']:
@@ -492,6 +561,8 @@ def short(x):
 
 
 def render(c, ob):
+    if c['kind'] == 'late':
+        return None                   # oracle only
     fl = Floats()
     v = r_pval(c['v'], fl, ob['obj'])
     kind = c['kind']
@@ -508,7 +579,7 @@ def render(c, ob):
 
 
 def nontrivial(c, ob):
-    return c['v'][0] in ('list', 'tuple', 'dict', 'set', 'nparr2')
+    return c['kind'] == 'late' or c['v'][0] in ('list', 'tuple', 'dict', 'set', 'nparr2')
 
 
 def stat_key(c, ob):
@@ -521,6 +592,7 @@ def run(cases, tier='quick', seed=0):
     for o in res['observations']:
         if isinstance(o, dict):
             o.pop('obj', None)
+            o.pop('stored', None)
     res['stats']['leaf_premise_failures'] = len(LEAF_PREMISE_FAILURES)
     res['samples'] = [{'case': cases[i]} for i in range(min(3, len(cases)))]
     return res
